@@ -298,12 +298,6 @@ impl Property for C15 {
             "A={:?} B={:?}: dim keys {:?} vs {:?} (equal: {}) but dim hashes {:#x} vs {:#x}",
             a, b, dim_key(&a), dim_key(&b), same_dim, da.dim_hash, db.dim_hash
         );
-        // the exposed constant label pairs are the declared ones, sorted by name
-        let mut want: Vec<(String, String)> = b.consts.clone();
-        want.sort();
-        let got: Vec<(String, String)> = db.const_label_pairs.iter().map(|l| (l.name().to_string(), l.value().to_string())).collect();
-        ensure!(got == want, "const-label-pairs-differ", "{:?}: const_label_pairs {:?}", b, got);
-
         // the registry follows the keys
         let reg = Registry::new();
         let r1 = reg.register(Box::new(DescCollector(da.clone())));
